@@ -183,6 +183,8 @@ func modelKey(phase, key string) string {
 		return strings.TrimPrefix(key, "#")
 	case "createMetadata", "translateMetadata":
 		return strings.TrimPrefix(key, "!")
+	case "createNamedMetadata", "translateNamedMetadata":
+		return trsrc.EscName(key) // the hook reports the bytes of the name; the model name is its spelling (`a\00`)
 	}
 	return key
 }
@@ -222,12 +224,16 @@ func normSrc(src []trsrc.Entity) []trsrc.Entity {
 // --- child mode --------------------------------------------------------------
 
 type childIn struct {
+	// Cold texts are the FIRST texts the fresh process parses: every goroutine parses all of them, all goroutines
+	// released at once (whatever the library builds lazily on first use is built under contention)
+	Cold       []string `json:"cold"`
 	Texts      []string `json:"texts"`
 	Goroutines int      `json:"goroutines"`
 	Rounds     int      `json:"rounds"`
 }
 
 type childOut struct {
+	Cold [][]outcome `json:"cold"` // per goroutine, per cold text
 	Seq  []outcome   `json:"seq"`  // one sequential parse per text
 	Conc [][]outcome `json:"conc"` // per round, per text (parsed concurrently)
 }
@@ -239,6 +245,24 @@ func child(path string) {
 		os.Exit(3)
 	}
 	var out childOut
+	if len(in.Cold) > 0 {
+		out.Cold = make([][]outcome, in.Goroutines)
+		var wg sync.WaitGroup
+		start := make(chan struct{})
+		for g := 0; g < in.Goroutines; g++ {
+			out.Cold[g] = make([]outcome, len(in.Cold))
+			wg.Add(1)
+			go func(g int) {
+				defer wg.Done()
+				<-start
+				for i, t := range in.Cold {
+					out.Cold[g][i] = parseString(t)
+				}
+			}(g)
+		}
+		close(start)
+		wg.Wait()
+	}
 	for _, t := range in.Texts {
 		out.Seq = append(out.Seq, parseString(t))
 	}
@@ -382,7 +406,7 @@ func Run(tier, replay string) {
 		child(p)
 	}
 	rep := mbt.NewReport("C12", tier, "model_checking")
-	rep.Rule = "a case is one input (TLC vector of Translate.tla: reference patterns, their faults and permutations; repository test inputs; llvm-stress programs; generated modules with >= 9 entities per index) parsed repeatedly: in one process, through the four entry points, after unrelated activity, concurrently on 8 goroutines under the race detector and in fresh processes; status, printed text and structural digest must all be equal; the translator's hook events are replayed as Pick actions of Translate.tla"
+	rep.Rule = "a case is one input (TLC vector of Translate.tla: reference patterns, their faults and permutations; repository test inputs; llvm-stress programs; generated modules with >= 9 entities per index) parsed repeatedly: in one process, through the four entry points, after unrelated activity, concurrently on 8 goroutines under the race detector and in fresh processes (whose first parses are modules of literals of every kind, on 8 goroutines at once); status, printed text and structural digest must all be equal; the translator's hook events are replayed as Pick actions of Translate.tla"
 	rng := rand.New(rand.NewSource(mbt.Seed()))
 	dir, err := os.MkdirTemp("", "verif-c12-")
 	if err != nil {
@@ -466,6 +490,10 @@ func Run(tier, replay string) {
 		// between parses would show between goroutines)
 		for _, in := range corpus.EscapeModules(16) {
 			inputs = append(inputs, input{name: "escapes/" + in.Name, text: in.Text})
+		}
+		// constants only: every literal kind and spelling (also the cold-start texts of the child processes)
+		for _, in := range corpus.LiteralModules(3) {
+			inputs = append(inputs, input{name: "literals/" + in.Name, text: in.Text})
 		}
 		mv := modgen.Generate(rep, "*")
 		step := 9
@@ -604,8 +632,37 @@ func Run(tier, replay string) {
 	for i := range inputs {
 		texts[i] = inputs[i].text
 	}
+	// cold start: literal-rich modules are the first texts a fresh process parses, on 8 goroutines at once; child c
+	// starts with another module (its own bit patterns) so that every first-use path is entered under contention
+	var cold []string
+	var coldBase []outcome
+	for _, in := range corpus.LiteralModules(6) {
+		cold = append(cold, in.Text)
+		coldBase = append(coldBase, parseString(in.Text)) // sequential, in this (long warm) process
+	}
 	for c := 0; c < children; c++ {
-		out, stderr := runChild(dir, childIn{Texts: texts, Goroutines: 8, Rounds: rounds})
+		rot := append(append([]string{}, cold[c%len(cold):]...), cold[:c%len(cold)]...)
+		rotBase := append(append([]outcome{}, coldBase[c%len(cold):]...), coldBase[:c%len(cold)]...)
+		out, stderr := runChild(dir, childIn{Cold: rot, Texts: texts, Goroutines: 8, Rounds: rounds})
+		if len(out.Cold) != 8 {
+			mbt.Infra("child process returned %d cold-start results", len(out.Cold))
+		}
+		for g := range out.Cold {
+			for i := range out.Cold[g] {
+				rep.Count(fmt.Sprintf("cold-start/%d/%d/%d", c, g, i), true)
+				if got := out.Cold[g][i]; got != rotBase[i] {
+					class := "status"
+					if got.Status == rotBase[i].Status {
+						class = "text"
+						if got.Text == rotBase[i].Text {
+							class = "structure"
+						}
+					}
+					rep.Fail(mbt.Failure{Signature: "C12|cold-start-concurrent-parse|" + class + "|literals",
+						What: fmt.Sprintf("a module of literals parsed by 8 goroutines at once as the first parses of a fresh process: outcome %+v differs from the sequential parse %+v", got, rotBase[i]), Case: map[string]string{"src": rot[i]}})
+				}
+			}
+		}
 		for sig, report := range raceSignatures(stderr) {
 			rep.Fail(mbt.Failure{Signature: "C12|data-race|" + sig, What: "race detector report during concurrent parses of unrelated inputs:\n" + report, Case: map[string]string{}})
 		}
